@@ -299,8 +299,12 @@ func (fr *Frame) chanName(ch *Val) string {
 }
 
 func (fr *Frame) onSend(ch *Val, v *Val, pos token.Pos) {
-	fr.anchorAsserts("send", fr.chanName(ch), pos, map[string]*Val{"ch": ch, "v": v})
-	defer fr.ghostAfter("send", fr.chanName(ch), map[string]*Val{"ch": ch, "v": v})
+	canc := boolVal("false")
+	if fr.sendCancellable {
+		canc = boolVal("true")
+	}
+	fr.anchorAsserts("send", fr.chanName(ch), pos, map[string]*Val{"ch": ch, "v": v, "cancellable": canc})
+	defer fr.ghostAfter("send", fr.chanName(ch), map[string]*Val{"ch": ch, "v": v, "cancellable": canc})
 	et := chanElem(ch)
 	if et == nil {
 		return
